@@ -222,6 +222,8 @@ def gen_cases(ctx):
             c["matrix"] = [[base + ctx.rng.choice([0, 1, 2, 3]) for _ in r] for r in c["matrix"]]
             c["dtypes"] = ["int64"] * len(c["weights"])
             c["mode"] = "int_beyond_2^53"
+        elif t < 0.42:
+            gen.special_values(ctx.rng, c)
         cases.append(c)
     return cases
 
